@@ -423,6 +423,40 @@ Proof.
   destruct (_ && _); [|reflexivity]. destruct (find_inst s1 i); reflexivity.
 Qed.
 
+(** The messages that START an attempt only move jobs that are waiting: creating / started reports act on Ready jobs
+    only, a schedule on Ready or Creating jobs only; in every other state no job row changes (the attempt row is still
+    recorded).  So a late start message for an old attempt cannot move a job that is Running under another attempt. *)
+Theorem start_messages_only_move_waiting_jobs s o b j x :
+  find_job s b j = Some x ->
+  match o with
+  | ScheduleJob b' j' _ _ => (b', j') = (b, j) /\ j_state x <> Ready /\ j_state x <> Creating
+  | MarkCreating b' j' _ _ _ | MarkStarted b' j' _ _ _ => (b', j') = (b, j) /\ j_state x <> Ready
+  | _ => False
+  end ->
+  jobs (fst (step s o)) = jobs s.
+Proof.
+  intros Hx Ho. destruct o; try contradiction; cbn [step].
+  - destruct Ho as (E & N1 & N2). injection E as -> ->. unfold do_schedule. rewrite Hx.
+    destruct (is_job_cancelled s x); [|reflexivity]. cbv zeta.
+    destruct (add_attempt s b j att inst (j_cores x)) as [[s1 d0]|] eqn:Ea; [|reflexivity].
+    assert (J1 : jobs s1 = jobs s) by (pose proof (add_attempt_jgb _ _ _ _ _ _ _ _ Ea) as E; unfold jgb in E; congruence).
+    assert (E1 : jstate_eqb (j_state x) Ready = false) by (destruct (j_state x); try reflexivity; congruence).
+    assert (E2 : jstate_eqb (j_state x) Creating = false) by (destruct (j_state x); try reflexivity; congruence).
+    rewrite E1, E2. cbn [orb andb fst]. exact J1.
+  - destruct Ho as (E & N1). injection E as -> ->. unfold do_mark_creating_or_started. rewrite Hx.
+    destruct (is_job_cancelled s x); [|reflexivity].
+    destruct (add_attempt s b j att inst (j_cores x)) as [[s1 d0]|] eqn:Ea; [|reflexivity]. cbv zeta.
+    assert (J1 : jobs s1 = jobs s) by (pose proof (add_attempt_jgb _ _ _ _ _ _ _ _ Ea) as E; unfold jgb in E; congruence).
+    assert (E1 : jstate_eqb (j_state x) Ready = false) by (destruct (j_state x); try reflexivity; congruence).
+    rewrite E1. cbn [andb fst]. unfold set_times. destruct (find_attempt s1 b j att); [rewrite update_attempt_jobs|]; exact J1.
+  - destruct Ho as (E & N1). injection E as -> ->. unfold do_mark_creating_or_started. rewrite Hx.
+    destruct (is_job_cancelled s x); [|reflexivity].
+    destruct (add_attempt s b j att inst (j_cores x)) as [[s1 d0]|] eqn:Ea; [|reflexivity]. cbv zeta.
+    assert (J1 : jobs s1 = jobs s) by (pose proof (add_attempt_jgb _ _ _ _ _ _ _ _ Ea) as E; unfold jgb in E; congruence).
+    assert (E1 : jstate_eqb (j_state x) Ready = false) by (destruct (j_state x); try reflexivity; congruence).
+    rewrite E1. cbn [andb fst]. unfold set_times. destruct (find_attempt s1 b j att); [rewrite update_attempt_jobs|]; exact J1.
+Qed.
+
 (* ------------------------------------------------------------------ (C) terminal rows are kept *)
 
 Lemma find_job_update_other s o n b j : jkey b j n = false -> find_job (update_job s o n) b j = find_job s b j.
